@@ -7,6 +7,10 @@ Property theorems only.  `conf w T v` is "v is a value of T at every depth" (exa
 membership under Python `==`, exact arity of heterogeneous tuples, key/required-key rules, sets and
 dict keys hashable and duplicate-free); `Any`/untyped positions accept everything (documented
 pass-through); TypedDict results may carry undeclared keys (recorded finding F9, see C10).
+
+"EVERY input" includes `str` / `bytes` payloads at iterating positions: a collection / heterogeneous-tuple /
+NamedTuple / tuple-strategy class position structures any iterable, a `str` iterates into 1-character strings and
+`bytes` into ints (`leafItems`; structured by the fuelled family `stLF` / `stLD`, whose soundness is `Leaf.sound`).
 -/
 namespace CattrsModel
 
@@ -113,6 +117,21 @@ example : stF exWorldNT ⟨false, true, false, false⟩ (.nt 0) (.coll .list [.s
     = some (.inst 0 [("x", .int 7), ("y", .str "b")]) := by
   simp [stF, stFT, iterItems, exWorldNT, World.isNT, World.ntTys, World.ntNames, World.fields, Field.tyA, Obj.toInt?, pyStr,
     ntMk, parseInt?, isDigit, digitsVal]
+/-- `str` / `bytes` payloads at iterating positions are iterated: `structure("12", list[int]) == [1, 2]`,
+`structure(b"a", tuple[int, ...]) == (97,)`; a character that is not a digit is reported under its index; and under
+the tuple strategy `structure("7b", Q)` fills the NamedTuple / class from the characters -/
+example : stF exWorld2 ⟨true, false, false, false⟩ (.coll .list .int) (.str "12") = some (.coll .list [.int 1, .int 2]) := by
+  simp [stF, iterItems, Leaf.stLF_coll, leafItems, stLFL, stLF, Obj.toInt?, finishColl, SK.structTo, CK.isSet, parseInt?,
+    digitsVal, isDigit]
+example : stF exWorld2 ⟨false, false, false, false⟩ (.coll .tupleHomo .int) (.bytes "61") = some (.coll .tuple [.int 97]) := by
+  simp [stF, iterItems, Leaf.stLF_coll, leafItems, hexBytes, stLFL, stLF, Obj.toInt?, finishColl, SK.structTo, CK.isSet]
+  decide
+example : stD exWorld2 ⟨true, false, true, false⟩ (.coll .list .int) (.str "1x") = .error (.ive [(some (.int 1), .leaf)]) := by
+  simp [stD, iterItems, Leaf.stLD_coll, leafItems, stLDL, stLD, Obj.toInt?, SK.structTo, CK.isSet, parseInt?,
+    digitsVal, isDigit, Ty.isAny]
+example : stF exWorldNT ⟨true, false, false, false⟩ (.nt 0) (.str "7b") = some (.inst 0 [("x", .int 7), ("y", .str "b")]) := by
+  simp [stF, iterItems, leafFuel, exWorldNT, Leaf.stLF_nt_succ, leafItems, stLFT, stLF, World.isNT, World.ntTys, World.ntNames,
+    World.fields, Field.tyA, Obj.toInt?, pyStr, ntMk, parseInt?, isDigit, digitsVal]
 end Examples
 
 end CattrsModel
